@@ -510,6 +510,8 @@ type vfNeg struct {
 	ExtraFeatures  string
 	ExpectEnable   bool // the client is configured to enable stream management (and SM is advertised)
 	ExpectPresence bool // Client.Connect sends an initial <presence/> after the negotiation (Resume does not)
+	// StanzasAfterEnabled (out): stanzas this script sent after its <enabled/> - they belong to the stream-managed session
+	StanzasAfterEnabled int
 }
 
 func vfStreamHeader(ns, id, from string) string {
@@ -651,32 +653,35 @@ func (pc *vfPeerConn) PostAuth(o *vfNeg) (string, error) {
 	}
 	pc.Send(fmt.Sprintf("<iq type='result' id='%s'><bind xmlns='%s'><jid>%s</jid></bind></iq>", e.Attrs["id"], vfNSBind, o.BindJid))
 	outcome := "bound"
-	if o.Session == "mandatory" {
+	// the legacy session request and <enable/> are served in whichever order the client sends them; what matters to a
+	// stream-managed session is which stanzas the server sends once it has said <enabled/> - those count
+	needSession, needEnable, enabledSent := o.Session == "mandatory", o.ExpectEnable, false
+	for needSession || needEnable {
 		if e, err = pc.Next(); err != nil {
 			return outcome, err
 		}
-		if !e.Is("", "iq") || e.Child("session") == nil {
+		switch {
+		case needSession && e.Is("", "iq") && e.Child("session") != nil:
+			pc.Send(fmt.Sprintf("<iq type='result' id='%s'/>", e.Attrs["id"]))
+			if enabledSent {
+				o.StanzasAfterEnabled++
+			}
+			needSession = false
+		case needEnable && e.Is(vfNSSM, "enable"):
+			id := o.SMID
+			if id == "" {
+				id = "smid"
+			}
+			res := ""
+			if o.SMResume != "" {
+				res = " resume='" + o.SMResume + "'"
+			}
+			pc.Send(fmt.Sprintf("<enabled xmlns='%s' id='%s'%s/>", vfNSSM, id, res))
+			outcome = "bound+sm"
+			needEnable, enabledSent = false, true
+		default:
 			return outcome, errVfScript
 		}
-		pc.Send(fmt.Sprintf("<iq type='result' id='%s'/>", e.Attrs["id"]))
-	}
-	if o.ExpectEnable {
-		if e, err = pc.Next(); err != nil {
-			return outcome, err
-		}
-		if !e.Is(vfNSSM, "enable") {
-			return outcome, errVfScript
-		}
-		id := o.SMID
-		if id == "" {
-			id = "smid"
-		}
-		res := ""
-		if o.SMResume != "" {
-			res = " resume='" + o.SMResume + "'"
-		}
-		pc.Send(fmt.Sprintf("<enabled xmlns='%s' id='%s'%s/>", vfNSSM, id, res))
-		outcome = "bound+sm"
 	}
 	if o.ExpectPresence {
 		if e, err = pc.Next(); err != nil {
